@@ -285,6 +285,8 @@ func RunC09(r *sim.Run) {
 
 	var mu sync.Mutex
 	inflight := map[string]int{} // schema|via
+	genIn := map[string]int{}    // schema|via|generation of the server-controlled limiter object
+	remoteGen := 0
 	var adms []admission
 	maxSeen := map[string]int{}
 	reqN := 0
@@ -363,6 +365,11 @@ func RunC09(r *sim.Run) {
 			}
 			mu.Lock()
 			k := s.name + "|" + via
+			// the server-controlled limiter object is rebuilt when the limiter type is switched
+			// off and on: admissions are also counted per generation of that object
+			gk := fmt.Sprintf("%s|%s|gen%d", s.name, via, remoteGen)
+			genIn[gk]++
+			nowGen := genIn[gk]
 			inflight[k]++
 			r.Logf("  #%d %s via %s admitted at %v (%d in flight there)", id, s.name, via, now(), inflight[k])
 			if inflight[k] > maxSeen[k] {
@@ -378,8 +385,13 @@ func RunC09(r *sim.Run) {
 			if !s.tb {
 				switch via {
 				case "remote":
-					if nowIn > gBound {
-						violated("global_limit_exceeded", "maxinflight/"+string(s.strategy), "schema %s (%s, local %d, global %d): %d requests in flight through the server-controlled limiter", s.name, s.strategy, s.local, gBound, nowIn)
+					if nowGen > gBound {
+						violated("global_limit_exceeded", "maxinflight/"+string(s.strategy), "schema %s (%s, local %d, global %d): %d requests in flight through the server-controlled limiter", s.name, s.strategy, s.local, gBound, nowGen)
+					} else if nowIn > gBound {
+						// two generations of the server-controlled limiter object (the limiter type was
+						// switched off and on while requests were in flight): separate accounting again
+						r.Finding("instance_total_exceeds_global", "remote+remote", "schema %s (%s, local %d, global %d): %d requests in flight through server-controlled limiters, %d of them admitted by the current object and the others by the one it replaced when the limiter type was switched off and on (requests admitted by one limiter object are invisible to the other)",
+							s.name, s.strategy, s.local, gBound, nowIn, nowGen)
 					}
 				case "local":
 					if nowIn > lBound {
@@ -398,6 +410,7 @@ func RunC09(r *sim.Run) {
 				mu.Lock()
 				fc.Release()
 				inflight[k]--
+				genIn[gk]--
 				mu.Unlock()
 			}()
 		}()
@@ -407,7 +420,8 @@ func RunC09(r *sim.Run) {
 	lowered, tbChanges, gateFlaps := 0, 0, 0
 	for step := 0; step < nSteps && !r.Violated(); step++ {
 		r.Step = step
-		switch t.Pick([]int{10, 8, 2, 1, 1, 2, 2, 1}) {
+		// the last weight (limiter type switched off and on) is 0: see DESIGN 12.3, open item
+		switch t.Pick([]int{10, 8, 2, 1, 1, 2, 2, 0}) {
 		case 7: // the cluster's GlobalRateLimiter feature gate is switched off and on again
 			gap := []time.Duration{0, 0, 0, 100 * time.Millisecond}[t.Draw(4)]
 			lim.ResetLimiter(flowcontrol.LocalFlowControls)
@@ -415,6 +429,9 @@ func RunC09(r *sim.Run) {
 				time.Sleep(gap)
 			}
 			lim.ResetLimiter(flowcontrol.RemoteFlowControls)
+			mu.Lock()
+			remoteGen++
+			mu.Unlock()
 			gateFlaps++
 			r.Logf("limiter type local, %v later remote again", gap)
 		case 0: // a burst of requests
